@@ -67,12 +67,19 @@ theorem getKey_of_hasKey (k : Str) : ∀ (ms : List (Str × Json)), hasKey k ms 
       · exact absurd h hne
       · exact h
 
+theorem suppressCyclic_noPanic (keep : St P → Bool) (r : Res P Unit) (h : r.NoPanic) :
+    (suppressCyclic keep r).NoPanic := by
+  unfold suppressCyclic
+  split
+  · split <;> simp
+  · exact h
+
 theorem iriExpandRest_noPanic {ops : IriOps P} (ht : OpsTotal ops) (ctdCb : St P → Str → Res P Unit)
     (loc : Option (List (Str × Json)))
     (hc : ∀ st t ms, loc = some ms → hasKey t ms = true → (ctdCb st t).NoPanic)
     (st : St P) (s : Str) (d v : Bool) : (iriExpandRest ops ctdCb loc st s d v).NoPanic := by
   unfold iriExpandRest
-  repeat' (first | apply Res.bind_noPanic | intro _ _ | split | dsimp only)
+  repeat' (first | apply Res.bind_noPanic | apply suppressCyclic_noPanic | intro _ _ | split | dsimp only)
   all_goals (first | (simp; done) | (exact expandTail_noPanic ht _ _ _ _ _) | skip)
   all_goals (apply hc _ _ _ rfl; simp_all)
 
@@ -81,7 +88,7 @@ theorem iriExpandBody_noPanic {ops : IriOps P} (ht : OpsTotal ops) (ctdCb : St P
     (hc : ∀ st t ms, loc = some ms → hasKey t ms = true → (ctdCb st t).NoPanic)
     (st : St P) (s : Str) (d v : Bool) : (iriExpandBody ops ctdCb loc st s d v).NoPanic := by
   unfold iriExpandBody
-  repeat' (first | apply Res.bind_noPanic | intro _ _ | split | dsimp only)
+  repeat' (first | apply Res.bind_noPanic | apply suppressCyclic_noPanic | intro _ _ | split | dsimp only)
   all_goals (first | (simp; done) | (exact iriExpandRest_noPanic ht ctdCb _ hc _ _ _ _) | skip)
   all_goals (apply hc _ _ _ rfl; simp_all)
 
